@@ -1836,16 +1836,9 @@ namespace reflect { \
             auto it = std::find_if(first, last, \
                                    [&](const mapped_type& item) -> bool \
                                    { return item.second == sv; }); \
-            if (it == last) \
+            if (it == last) /* an empty string stands for value_type() only when no enumerator has that value (handled above) */ \
             { \
-                if (sv.empty()) \
-                { \
-                    return result_type(value_type()); \
-                } \
-                else \
-                { \
-                    return result_type(jsoncons::unexpect, conv_errc::conversion_failed, # EnumType, cursor.line(), cursor.column()); \
-                } \
+                return result_type(jsoncons::unexpect, conv_errc::conversion_failed, # EnumType, cursor.line(), cursor.column()); \
             } \
             return result_type((*it).first); \
         } \
@@ -2024,16 +2017,9 @@ namespace reflect { \
             auto it = std::find_if(first, last, \
                                    [&](const mapped_type& item) -> bool \
                                    { return item.second == sv; }); \
-            if (it == last) \
+            if (it == last) /* an empty string stands for value_type() only when no enumerator has that value (handled above) */ \
             { \
-                if (sv.empty()) \
-                { \
-                    return result_type(value_type()); \
-                } \
-                else \
-                { \
-                    return result_type(jsoncons::unexpect, conv_errc::conversion_failed, # EnumType, cursor.line(), cursor.column()); \
-                } \
+                return result_type(jsoncons::unexpect, conv_errc::conversion_failed, # EnumType, cursor.line(), cursor.column()); \
             } \
             return result_type((*it).first); \
         } \
